@@ -122,7 +122,8 @@ MONEY_NAMES = {}        # names holding money in the history being generated -> 
 _NAME_ALT = '|'.join(re.escape(n) for n in sorted(NAMES, key=len, reverse=True))
 _RE_SET = re.compile(r'^(%s) = (\d+)$' % _NAME_ALT)
 _RE_DERIVE = re.compile(r'^(%s) = (%s) \+ (\d+)$' % (_NAME_ALT, _NAME_ALT))
-_RE_FAIL = re.compile(r'^(%s) = (3 hours \* 2 hours|5 km \+ 3 kg|10:30 \* 2)$' % _NAME_ALT)
+# (right sides that cannot be calculated under any configured language: '3 hours * 2 hours' is 6 in tr, where 'hours' is no duration word)
+_RE_FAIL = re.compile(r'^(%s) = (3 gb \* 2 km|5 km \+ 3 kg|10:30 \* 2)$' % _NAME_ALT)
 _RE_USE = re.compile(r'^(%s) \* 2 \+ (\d+)$' % _NAME_ALT)
 
 
@@ -162,7 +163,7 @@ def program_line(rng, bound, phrases=True):
     if not phrases and r >= 0.92:
         r = 0.5
     if bound and r < 0.04:
-        return '%s = %s' % (rng.choice(sorted(bound)), rng.choice(['3 hours * 2 hours', '5 km + 3 kg', '10:30 * 2'])), None
+        return '%s = %s' % (rng.choice(sorted(bound)), rng.choice(['3 gb * 2 km', '5 km + 3 kg', '10:30 * 2'])), None
     if r < 0.45 or not bound:
         n = rng.choice(NAMES)
         if bound and rng.random() < 0.5:
